@@ -365,6 +365,17 @@ Definition respond_error (k : kind) (x : exc) (tb : option str) (url : str) (acc
 Definition respond_critical (path_info : option str) (debug : bool) (x : exc) (tb : str) : response :=
   Resp crit_status crit_ctype (critical_page path_info debug x tb).
 
+(* one request as far as the framework's error responses depend on it *)
+Record request := mkReq {
+  q_kind : kind; q_exc : exc; q_tb : option str; q_url : str; q_accept : option str; q_debug : bool }.
+
+Definition respond_req (q : request) : response :=
+  respond_error (q_kind q) (q_exc q) (q_tb q) (q_url q) (q_accept q) (q_debug q).
+
+(* several requests answered one after the other by ONE application object: the
+   error handlers keep nothing from one request to the next *)
+Definition respond_seq (qs : list request) : list response := map respond_req qs.
+
 End Model.
 
 (* ---------------- correspondence interface ---------------- *)
@@ -415,6 +426,28 @@ Definition enc_jres (r : jres) : list Z :=
   | JFuel => [9%Z]
   end.
 
+Definition dec_request (r : list Z) : option (request * list Z) :=
+  match dec_kind r with
+  | Some (k, r1) =>
+    match dec_exc r1 with
+    | Some (x, r2) =>
+      match dec_opt_str r2 with
+      | Some (tb, r3) =>
+        match dec_str r3 with
+        | Some (url, r4) =>
+          match dec_opt_str r4 with
+          | Some (acc, dbg :: r5) => Some (mkReq k x tb url acc (negb (Z.eqb dbg 0)), r5)
+          | _ => None
+          end
+        | None => None
+        end
+      | None => None
+      end
+    | None => None
+    end
+  | None => None
+  end.
+
 (* the Unicode table, restricted to what the case needs: the harness lists the
    code points >= 128 occurring in the case that str.isprintable rejects *)
 Definition table_of (nonprintable : list N) (c : N) : bool := negb (existsb (N.eqb c) nonprintable).
@@ -424,7 +457,8 @@ Definition table_of (nonprintable : list N) (c : N) : bool := negb (existsb (N.e
      tag 1: path_info (opt) ; debug ; exc ; traceback                      -> last-resort page
      tag 2: s -> html.escape(s)          tag 3: s -> common_helpers.html_escape(s)
      tag 4: s -> repr(s)                 tag 5: s -> json.dumps(s)
-     tag 6: text -> parse_json_obj *)
+     tag 6: text -> parse_json_obj
+     tag 7: n ; n requests as in tag 0 -> the n responses of one application object *)
 Definition corr_C20 (inp : list Z) : list Z :=
   match inp with
   | tag :: r0 =>
@@ -433,24 +467,13 @@ Definition corr_C20 (inp : list Z) : list Z :=
     | Some (np, r) =>
       let isp := table_of np in
       if Z.eqb tag 0 then
-        match dec_kind r with
-        | Some (k, r1) =>
-          match dec_exc r1 with
-          | Some (x, r2) =>
-            match dec_opt_str r2 with
-            | Some (tb, r3) =>
-              match dec_str r3 with
-              | Some (url, r4) =>
-                match dec_opt_str r4 with
-                | Some (acc, dbg :: _) => enc_response (respond_error isp k x tb url acc (negb (Z.eqb dbg 0)))
-                | _ => bad_input
-                end
-              | None => bad_input
-              end
-            | None => bad_input
-            end
-          | None => bad_input
-          end
+        match dec_request r with
+        | Some (q, _) => enc_response (respond_req isp q)
+        | None => bad_input
+        end
+      else if Z.eqb tag 7 then
+        match dec_list dec_request r with
+        | Some (qs, _) => enc_list enc_response (respond_seq isp qs)
         | None => bad_input
         end
       else if Z.eqb tag 1 then
